@@ -212,6 +212,6 @@ def run(R):
         'tools/validator/zstdgenerator.py brackets the transitions of ZoneSpecifier (not of the library) one second apart; it is outside the bracket clause and is not covered',
         'table transitions at non-minute instants are skipped (none in 2000..2037)',
     ]
-    return check.finish(R, 'other',
+    return check.finish(R, 'exploration',
         'Search and sampling loops proved from the Python AST under an integer model of datetime; completeness against the '
         'installed libraries, samples, field equality and lossless rendering by bounded runs of the real generators.')
